@@ -691,6 +691,15 @@ func Corpus() []Case {
 		mk(`{ omit(x: {o: null, os: null, oInner: null}) }`, ""),
 		mk(`{ omit(x: {o: 1, os: 2, oInner: {req: 1}, oStr: "s"}) }`, ""),
 		mk(`{ omit(x: {}) }`, ""),
+		// hand-written input models with pointer-to-pointer fields: omitted / null / value
+		mk(`{ ptrptr(x: {}) }`, ""),
+		mk(`{ ptrptr(x: {inner: null, child: null, inners: null, nums: null}) }`, ""),
+		mk(`{ ptrptr(x: {inner: {key: "k"}, child: {inner: null, child: {inner: {n: 1}}}, inners: [null, {n: 2}], nums: [1, null]}) }`, ""),
+		mk(`query($v: PPOuter) { ptrptr(x: $v) }`, `{"v":{"inner":null,"child":{"inner":null,"inners":[null,{}]}}}`),
+		mk(`query($i: PPInner, $c: PPOuter) { ptrptr(x: {inner: $i, child: $c}) }`, `{"i":null,"c":null}`),
+		mk(`query($i: PPInner, $c: PPOuter) { ptrptr(x: {inner: $i, child: $c}) }`, `{"i":{"n":3},"c":{"inner":null}}`),
+		mk(`{ ptrptrs(x: {inner: null}) }`, ""),
+		mk(`{ ptrptrs(x: [{inner: null}, {inner: {}}, {}]) }`, ""),
 		// defaults probe: everything omitted, so every default of every form must arrive
 		mk(`{ defArgs }`, ""),
 		mk(`{ defIn(x: {}) }`, ""),
